@@ -18,7 +18,12 @@ Section Gen.
     let kind := (x / 1024) mod 8 in
     let k := pick orders 0%nat (x / 65536) in
     let c := pick classes 0 (x / 8192) in
-    let l := pick locals_ None (x / 524288) in
+    let l0 := pick locals_ None (x / 524288) in
+    (* valid parameters: a slot index below the slot count of the class, or none *)
+    let l := match l0, class_locals (m2_up s) c with
+             | Some i, Some len => if i <? len then l0 else None
+             | _, _ => None
+             end in
     let y := x / 16777216 in
     let fr := frames (low (m2_up s)) in
     let rq := {| r_order := k; r_class := c; r_local := l |} in
